@@ -1,5 +1,6 @@
 """C11 — separated large values stay intact and reachable (E2 engine with the value log enabled)."""
 from . import e2gen as G
+from . import common as C
 from . import crashwl as CW
 
 MODEL_TARGETS = ["theories/Spec/Machine.vo"]
@@ -36,12 +37,89 @@ def classify(lines, exp, got):
     return None
 
 
+def show(v):
+    _, l, sd = v.split(":")
+    b = C.rep(int(l), int(sd))
+    return "#%d/%s" % (len(b), C.fnv(b)) if len(b) > 16 else b.hex()
+
+
+def volume_index_gc(ctx):
+    """a compaction that makes MANY flushed versions obsolete at once (value log + version index): every value-log file
+    that is removed must first lose every index entry that points into it.  Implementation-only run with a python
+    oracle: every current value is read back byte for byte; the history traversal raises no error, lists only versions
+    that were written, and lists the newest version of every key.  Returns [(desc, replay_text)], n_commands."""
+    rng = C.Rng(ctx["seed"] * 31 + 11)
+    out, total = [], 0
+    runs = [rng.choice([900, 1100, 1300])] if ctx["tier"] == "quick" else [700, 900, 1100, 1300, 1700]
+    for n in runs:
+        opts = "lc=2,ver=1,vlog=1,vth=0,vfs=4096,idx=1,ret=1"
+        keys = ["6b%04x" % j for j in range(n)]
+        L = ["e2 new", "e2 open " + opts]
+        tx = 0
+        vals = {}
+        for rnd, clk in ((1, 100), (2, 200)):
+            L.append("e2 clock %d" % clk)
+            for c0 in range(0, n, 100):
+                tx += 1
+                L.append("e2 begin %d rw" % tx)
+                for j in range(c0, min(n, c0 + 100)):
+                    v = "rep:%d:%d" % (24 + (j % 7), (j * 3 + rnd) & 255)
+                    vals[(keys[j], clk)] = show(v)
+                    L.append("e2 set %d %s %s" % (tx, keys[j], v))
+                L.append("e2 commit %d" % tx)
+                L.append("e2 drop %d" % tx)      # a finished transaction object still holds its snapshot until it is dropped
+            L.append("e2 flush")
+        L += ["e2 clock 1000000000", "e2 compact 0"]
+        tx += 1
+        L.append("e2 begin %d ro" % tx)
+        probe = [keys[j] for j in sorted(rng.sample(range(n), 40))]
+        gi = len(L)
+        L += ["e2 get %d %s" % (tx, k) for k in probe]
+        hi = len(L)
+        L.append("e2 history %d - ff 0 ~ ~ f" % tx)
+        L.append("e2 close")
+        total += len(L)
+        ans = C.run_pairs([L], sides=("impl",), timeout=900)[0]["impl"][0]
+        bad = None
+        if len(ans) < len(L):
+            bad = "the run stopped after %d of %d commands: %s" % (len(ans), len(L), ans[-1:] )
+        else:
+            for j, k in enumerate(probe):
+                if ans[gi + j] != "val:" + vals[(k, 200)]:
+                    bad = "`%s` answers %s, expected val:%s" % (L[gi + j], ans[gi + j][:120], vals[(k, 200)])
+                    break
+            h = ans[hi]
+            if bad is None and not h.startswith("hist:"):
+                bad = "history over all keys after the compaction fails: %s" % h[:300]
+            if bad is None:
+                seen_new = set()
+                for item in [x for x in h[5:].split(",") if x]:
+                    kt, v = item.split("=", 1)
+                    k, ts = kt.split("@")
+                    if vals.get((k, int(ts))) != v:
+                        bad = "history lists %s, which was never written" % item
+                        break
+                    if int(ts) == 200:
+                        seen_new.add(k)
+                if bad is None and len(seen_new) != n:
+                    bad = "history lists the newest version of %d of %d keys" % (len(seen_new), n)
+        if bad:
+            desc = "value log + version index, %d keys written twice, compaction: %s" % (n, bad)
+            text = ["# property=C11", "# oracle: " + desc, "# options: " + opts, "# (implementation-only run; python oracle)"] + ["> " + l for l in L]
+            out.append((desc[:400], "\n".join(text) + "\n"))
+    return out, total
+
+
 def explore(ctx):
     r = G.explore_profiles(ctx, "C11", PROFILES, nontrivial, classify=classify, n_quick=200, n_thorough=3000)
     r["coverage"]["rule"] = ("API histories with the value log enabled: value sizes 0, threshold-1, threshold, threshold+1, multi-block (up to 100 kB), "
                              "vlog file sizes from 64 bytes (rotation inside one flush) upward, overwrite/delete patterns that make files obsolete, "
                              "readers and open cursors held across flush / compaction / clean-up, reopen; non-trivial = a compaction, separated values "
                              "and at least 3 commits")
+    vv, nv = volume_index_gc(ctx)
+    r["violations"] += vv[:2]
+    r["coverage"]["evaluations"] += nv
+    r["coverage"]["rule"] += "; plus a volume run (700-1700 keys written twice with the version index and 4 KiB value-log files, retention passed, one compaction) checked by a python oracle"
     # crash recovery with separated values: every crash image (process crash, power loss) must open and return
     # the acknowledged values byte for byte
     c = CW.explore(dict(ctx, seed=ctx["seed"] + 3000), "C11", {"open-failed", "acked-lost", "not-a-prefix"}, n_quick=6, n_thorough=40, opts_pool=CRASH_OPTS)
